@@ -211,6 +211,12 @@ def replay(ctx, data):
     inp = data.get('input') or {}
     if data.get('oracle') == 'cli_vs_api':
         return cli_vs_api(ctx, tuple(inp['flags']), inp['source'], inp['mode']) is not None
+    if data.get('oracle') == 'scenario':
+        sc = {'files': dict((k, v.encode('latin-1')) for k, v in inp['files'].items()), 'args': inp['args'],
+              'stdin': inp['stdin'].encode('latin-1'), 'force': inp['force'],
+              'api': dict((k.encode('latin-1'), v) for k, v in inp['api'].items()), 'mode': 'replay'}
+        r, post, _w, _d = cc.run_scenario_impl(sc)
+        return any(p == 'C13' for p, _ in cc.check_scenario_oracles(ctx, sc, r, post))
     if data.get('oracle') == 'kw':
         flags = [a for a in inp['argv'] if a in cc.DOC_FLAGS]
         n0 = len(ctx.violations)
